@@ -75,10 +75,55 @@ type prog = {
   mutable fuel : int;
   mutable entry : string;
   mutable states : string list list;
+  mutable wf : bool;
 }
 
 let fresh () = { id = ""; syms = []; ports = []; base = []; funcs = []; watch = []; fuel = 100000;
-                 entry = "main"; states = [] }
+                 entry = "main"; states = []; wf = false }
+
+let run_wf (p : prog) =
+  let tbl = Hashtbl.create 64 in
+  List.iter (fun (n, a) -> Hashtbl.replace tbl n a) p.syms;
+  let layout (s : char list) = match Hashtbl.find_opt tbl (implode s) with Some a -> Some (z_of_int a) | None -> None in
+  List.iter (fun (n, ls) ->
+      let r = wf_check layout ls in
+      let ints l = String.concat "," (List.map (fun k -> string_of_int (int_of_nat k)) l) in
+      let strs l = String.concat "," (List.map (fun x -> hex (implode x)) l) in
+      Printf.printf "@wf %s %s %d bad=%s illegal=%s unknown=%s dup=%s undef=%s\n" p.id (hex n) (int_of_n r.wf_size)
+        (String.concat "," (List.map (fun ((k, a), b) -> Printf.sprintf "%d:%d:%d" (int_of_nat k) (int_of_n a) (int_of_n b)) r.wf_bad_size))
+        (ints r.wf_illegal) (ints r.wf_unknown) (strs r.wf_dup_labels) (strs r.wf_undefined))
+    (List.rev p.funcs)
+
+(* @asmsel lines:  probe <id> <MN> <kind> <name-hex> <vtype> <const> <signed> <vmem> <size> <eight> <int> <high> <scheme> <prot> *)
+let run_asmsel_line (f : string list) =
+  match f with
+  | id :: mn :: kind :: name :: vt :: c :: sg :: vm :: sz :: eb :: n :: hi :: sch :: prot :: _ ->
+      (match mnem_of_name (explode mn) with
+       | None -> Printf.printf "@sel %s bad\n" id
+       | Some m ->
+           let v = { v_name = explode (unhex name);
+                     v_type = (match vt with "Char" -> VChar | "Short" -> VShort | "CharPtr" -> VCharPtr
+                                            | "CharPtrPtr" -> VCharPtrPtr | _ -> VShortPtr);
+                     v_const = (c = "1"); v_signed = (sg = "1");
+                     v_mem = (match vm with "Zeropage" -> MZeropage | "Superchip" -> MSuperchip
+                                           | "MemoryOnChip" -> MOnChip | _ -> MOther);
+                     v_size = z_of_int (int_of_string sz) } in
+           let b x = (x = "1") in
+           let z = z_of_int (int_of_string n) in
+           let e = match kind with
+             | "nothing" -> ENothing | "imm" -> EImmediate z | "tmp" -> ETmp (b eb)
+             | "abs" -> EAbsolute (v, b eb, z) | "absx" -> EAbsoluteX v | "absy" -> EAbsoluteY v
+             | "a" -> EA (b eb) | _ -> ELabel (explode (unhex name)) in
+           let s = match sch with "3E" -> S3E | "3EP" -> S3EP | _ -> SOther in
+           (match asm_sel s m e (b hi) with
+            | AEmit (m', sgn, em) ->
+                let i = instr_of (b prot) m' em in
+                Printf.printf "@sel %s ok %d %s %d %d %d %s %s\n" id (if sgn then 1 else 0)
+                  (implode (mnem_name i.i_mn)) (if i.i_prot then 1 else 0) (int_of_n i.i_bytes) (int_of_n i.i_cycles)
+                  (match i.i_alt with None -> "-" | Some a -> string_of_int (int_of_n a)) (hex (implode i.i_op))
+            | ANoEmit sgn -> Printf.printf "@sel %s noemit %d\n" id (if sgn then 1 else 0)
+            | AErr msg -> Printf.printf "@sel %s err %s\n" id (hex (implode msg))))
+  | _ -> ()
 
 let run_prog (p : prog) =
   let tbl = Hashtbl.create 64 in
@@ -141,7 +186,9 @@ let () =
        | None ->
            (match String.split_on_char ' ' l with
             | "@prog" :: id :: _ -> cur := fresh (); (!cur).id <- id
-            | "@end" :: _ -> run_prog !cur; cur := fresh ()
+            | "@wf" :: id :: _ -> cur := fresh (); (!cur).id <- id; (!cur).wf <- true
+            | "probe" :: r -> run_asmsel_line r
+            | "@end" :: _ -> (if (!cur).wf then run_wf !cur else run_prog !cur); cur := fresh ()
             | "sym" :: n :: a :: _ -> (!cur).syms <- (unhex n, int_of_string a) :: (!cur).syms
             | "port" :: w :: r :: s :: _ -> (!cur).ports <- (int_of_string w, int_of_string r, int_of_string s) :: (!cur).ports
             | "mem" :: a :: v :: _ -> (!cur).base <- (int_of_string a, int_of_string v) :: (!cur).base
